@@ -35,7 +35,7 @@ func init() {
 			var ops []any
 			pool := []string{Pick(r, bkNames), Pick(r, bkNames), Pick(r, bkNames), Pick(r, bkNames)}
 			for i := 0; i < n; i++ {
-				op := bkOp{Name: Pick(r, pool), Path: r.Intn(4)}
+				op := bkOp{Name: Pick(r, pool), Path: r.Intn(6)}
 				switch r.Weighted(6, 3, 1, 3, 2, 2) {
 				case 0:
 					op.Kind = "set"
@@ -79,7 +79,10 @@ func runC19(env *Env, data map[string]any) *Outcome {
 	// target files (valid klog files) with awkward names
 	dir := filepath.Join(env.TmpDir, "bk dir ü")
 	os.MkdirAll(dir, 0755)
-	targets := []string{filepath.Join(dir, "a.klg"), filepath.Join(dir, "b c.klg"), filepath.Join(dir, "q\"uote'.klg"), filepath.Join(dir, "日本.klg")}
+	dir2 := filepath.Join(env.TmpDir, "bk dir ü", "archive") // files of the SAME name in another folder are different targets
+	os.MkdirAll(dir2, 0755)
+	targets := []string{filepath.Join(dir, "a.klg"), filepath.Join(dir, "b c.klg"), filepath.Join(dir, "q\"uote'.klg"), filepath.Join(dir, "日本.klg"),
+		filepath.Join(dir2, "a.klg"), filepath.Join(dir2, "b c.klg")}
 	for i, t := range targets {
 		os.WriteFile(t, []byte(fmt.Sprintf("2021-03-04\n    %dh\n", i+1)), 0644)
 	}
